@@ -122,6 +122,34 @@ impl Drop for L {
     }
 }
 
+/// pointer-sized, no drop glue (`needs_drop::<T>() == false`)
+pub struct P(usize);
+impl Payload for P {
+    fn make(t: u32) -> Self {
+        P(t as usize ^ 0x3c3c_0000_0000)
+    }
+    fn tag(&self) -> u32 {
+        (self.0 ^ 0x3c3c_0000_0000) as u32
+    }
+}
+
+/// larger than a pointer, no drop glue
+#[repr(C)]
+pub struct Q {
+    a: usize,
+    b: u8,
+    c: usize,
+}
+impl Payload for Q {
+    fn make(t: u32) -> Self {
+        Q { a: t as usize, b: (t % 251) as u8, c: !(t as usize) }
+    }
+    fn tag(&self) -> u32 {
+        assert!(self.c == !self.a && self.b == (self.a % 251) as u8, "payload corrupted");
+        self.a as u32
+    }
+}
+
 // ---- wakers with identity -------------------------------------------------------
 //
 // The data pointer is the base id `w`, so `will_wake` is true iff the base ids
@@ -646,6 +674,8 @@ pub fn run(p: &Program) -> RunResult {
         'z' => run_class::<Z>(p, s),
         'b' => run_class::<B>(p, s),
         'l' => run_class::<L>(p, s),
+        'p' => run_class::<P>(p, s),
+        'q' => run_class::<Q>(p, s),
         _ => run_class::<W>(p, s),
     };
     kanal::verif::clear_runtime();
